@@ -452,6 +452,9 @@ carquet_status_t carquet_column_index_serialize(
     }
 
     thrift_write_struct_end(&enc);
+    if (thrift_encoder_has_error(&enc)) {
+        return enc.status;
+    }
     return CARQUET_OK;
 }
 
@@ -503,6 +506,9 @@ carquet_status_t carquet_offset_index_serialize(
     }
 
     thrift_write_struct_end(&enc);
+    if (thrift_encoder_has_error(&enc)) {
+        return enc.status;
+    }
     return CARQUET_OK;
 }
 
